@@ -114,11 +114,17 @@ func (d *buDest) UnmarshalBinary(b []byte) error {
 
 // recReader is a runtime.CSVReader over a record table; with sc.Fault the read that would deliver record
 // number sc.ErrAt (or the end of the table) fails instead.
+//
+// With reuse it hands out ONE backing slice, overwritten by every Read (what csv.Reader does with ReuseRecord,
+// and what the CSVReader contract allows): a record is valid until the next Read only. Before the slice is
+// filled again its old fields are overwritten with a marker, so that a record kept by reference shows.
 type recReader struct {
 	records [][]string
 	i       int
 	sc      Script
 	failed  bool
+	reuse   bool
+	shared  []string
 }
 
 func (r *recReader) Read() ([]string, error) {
@@ -130,6 +136,22 @@ func (r *recReader) Read() ([]string, error) {
 		return nil, io.EOF
 	}
 	r.i++
+	if r.reuse {
+		if r.shared == nil {
+			widest := 1
+			for _, rec := range r.records {
+				if len(rec) > widest {
+					widest = len(rec)
+				}
+			}
+			r.shared = make([]string, 0, widest)
+		}
+		for j := range r.shared[:cap(r.shared)] {
+			r.shared[:cap(r.shared)][j] = "\x00verif-reused-slot\x00"
+		}
+		r.shared = append(r.shared[:0], r.records[r.i-1]...)
+		return r.shared, nil
+	}
 	return r.records[r.i-1], nil
 }
 
@@ -203,7 +225,10 @@ var destOtherKinds = []string{"nil", "[]byte", "[][]string", "string", "int", "*
 
 // Source kinds of the producer. "text" kinds carry CSV text, "table" kinds a record table.
 var srcTextKinds = []string{"*csv.Reader", "reader", "readcloser", "buffer", "writerto", "binm", "[]byte", "named-bytes", "*[]byte", "string", "named-string", "*string"}
-var srcTableKinds = []string{"csvreader", "[][]string", "named-table", "*[][]string", "[]named-record", "[][]named-field"}
+var srcTableKinds = []string{"csvreader", "csvreader-reusing", "[][]string", "named-table", "*[][]string", "[]named-record", "[][]named-field"}
+
+// srcNilKinds: untyped nil data (judged: an error, no panic) and typed-nil pointer sources (probed and classed).
+var srcNilKinds = []string{"nil", "nil-*string", "nil-*[]byte", "nil-*[][]string", "nil-*csv.Reader"}
 
 func isIn(l []string, s string) bool {
 	for _, e := range l {
@@ -451,8 +476,8 @@ func mkSource(kind string, text []byte, table [][]string, o Script) (s source, o
 		s.rd = newReader(text, o)
 		s.csvr = csv.NewReader(s.rd)
 		s.v = s.csvr
-	case "csvreader":
-		x := &recReader{records: table, sc: o}
+	case "csvreader", "csvreader-reusing":
+		x := &recReader{records: table, sc: o, reuse: kind == "csvreader-reusing"}
 		s.v, s.faulted = x, func() bool { return x.failed }
 	case "reader":
 		s.rd = newReader(text, o)
@@ -484,6 +509,17 @@ func mkSource(kind string, text []byte, table [][]string, o Script) (s source, o
 		s.v = &x
 	case "[][]string", "named-table", "*[][]string", "[]named-record", "[][]named-field":
 		s.v = fromStrings(kind, table)
+	// no data at all, and the typed-nil pointers of the pointer kinds
+	case "nil":
+		s.v = nil
+	case "nil-*string":
+		s.v = (*string)(nil)
+	case "nil-*[]byte":
+		s.v = (*[]byte)(nil)
+	case "nil-*[][]string":
+		s.v = (*[][]string)(nil)
+	case "nil-*csv.Reader":
+		s.v = (*csv.Reader)(nil)
 	default:
 		return s, false
 	}
